@@ -33,6 +33,9 @@ def run(ctx):
     ctx.floor("C06.anchor", "hotspot QPS checkers (impl Checker::do_check)", len(checkers), 2)
     for b in checkers:
         keying(ctx, f, b, cfg)
+    # no cross-talk within the rule's capacity: cells built for another capacity / another checker are never handed to the rule
+    from . import rules_C11
+    rules_C11.reuse_shape(ctx, f, "hotspot", cfg, R="C06.capacity/reuse-shape")
     rej = [b for b in checkers if not any(callee_is(t, "TokenResult::new_should_wait") for _, t in b.calls())]
     if ctx.floor("C06.decision", "hotspot reject checker", len(rej), 1):
         decision(ctx, f, rej[0], cfg)
@@ -72,6 +75,28 @@ def keying(ctx, f, b, cfg):
         ctx.violation("C06.keying", "C06.keying|%s|cells" % _short(b), "a per-value cell is addressed with something other than the checked argument: %s" % (bad or "no access found"), b.loc(), config=cfg)
     if ovr != [True]:
         ctx.violation("C06.keying", "C06.keying|%s|override" % _short(b), "the per-value override is not looked up by the checked argument", b.loc(), config=cfg)
+    # the override replaces q: wherever the rule's threshold enters a computation, a comparison or a call, it does so through the value
+    # that the override lookup can overwrite (its origin set then contains the override table as well)
+    uses, bypass = 0, []
+    for bi, blk in enumerate(b.blocks):
+        if blk["cleanup"]:
+            continue
+        ops = []
+        for st in blk["stmts"]:
+            if st["k"] == "assign" and st["rv"]["k"] in ("bin", "un", "cast") and not st.get("exp"):
+                ops += [(st["rv"].get(x), "%s" % (st["rv"].get("op") if isinstance(st["rv"].get("op"), str) else st["rv"]["k"])) for x in ("a", "b", "op") if isinstance(st["rv"].get(x), dict)]
+        t = blk["term"]
+        if t and t["k"] == "call" and not t.get("exp"):
+            ops += [(a, "argument of " + callee_def(t).rsplit("::", 2)[-1]) for a in t["args"]]
+        for op, what in ops:
+            at = sl.of_operand(op)
+            if any_atom(at, "field:Rule.threshold"):
+                uses += 1
+                if not any_atom(at, "field:Rule.specific_items"):
+                    bypass.append("%s at line %s" % (what, b.line_of(bi) if hasattr(b, "line_of") else b.loc(bi)))
+    ctx.instance("C06.keying/override-replaces", b.path, {"uses_of_threshold": uses, "bypassing_override": bypass}, "every use of the threshold goes through the overridable value", not bypass and uses >= 1, cfg)
+    if bypass or uses < 1:
+        ctx.violation("C06.keying", "C06.keying|%s|override-bypass" % _short(b), "the rule-wide threshold is used without the per-value override: %s" % (bypass[:3] or "no use of the threshold found"), b.loc(), config=cfg)
 
 
 def _short(b):
